@@ -94,7 +94,8 @@ def cases(seed, tier):
     for kind in ('logit', 'panel'):
         for weight in (False, True):
             for script in (['bootstrap', 'like'], ['deriv', 'bootstrap', 'deriv'], ['like', 'estimate', 'like_scaled'],
-                           ['deriv', 'simulate', 'like'], ['set_threads_down', 'simulate', 'like'], ['quick_estimate', 'deriv_scaled']):
+                           ['deriv', 'simulate', 'like'], ['set_threads_down', 'simulate', 'like'], ['quick_estimate', 'deriv_scaled'],
+                           ['deriv', 'set_threads_up', 'like'], ['estimate', 'set_threads_up', 'like_scaled', 'deriv']):
                 out.append({'seed': seed, 'i': 900000 + k, 'mode': 'history', 'tier': tier, 'kind': kind, 'weight': weight,
                             'script': script})
                 k += 1
@@ -391,7 +392,7 @@ def run_case(case):
     if case['mode'] == 'directed':
         _directed(case, rec)
     elif case['mode'] == 'history':
-        _history_case(case, rec)
+        return _history_forked(case)
     else:
         _model_case(case, rec)
     return rec.out()
@@ -873,6 +874,70 @@ def _force_weight(spec, want, r):
     spec['bare'] = spec['weight_ast'] is None and spec.get('bare', False)
 
 
+_PROGRESS = {'path': None}
+
+
+def _progress(history, flags):
+    if _PROGRESS['path']:
+        try:
+            with open(_PROGRESS['path'], 'w') as f:
+                json.dump({'history': list(history), 'flags': flags}, f)
+        except OSError:
+            pass
+
+
+def _history_child(case):
+    rec = Rec(case)
+    warnings.simplefilter('ignore')
+    _history_case(case, rec)
+    return rec.out()
+
+
+def _history_forked(case):
+    """The history runs in its own forked process (a native crash must leave a structured witness: the operations
+    executed so far are streamed to a progress file)."""
+    from ..worker import run_forked
+
+    _PROGRESS['path'] = os.path.join(os.environ.get('BIOMON_WORKDIR') or '.', f'c04_history_progress_{os.getpid()}.json')
+    try:
+        os.remove(_PROGRESS['path'])
+    except OSError:
+        pass
+    res = run_forked(_history_child, case, max(60.0, CASE_TIMEOUT - 60.0))
+    prog = {}
+    try:
+        with open(_PROGRESS['path']) as f:
+            prog = json.load(f)
+        os.remove(_PROGRESS['path'])
+    except (OSError, ValueError):
+        pass
+    if 'n' in res:
+        return res
+    rec = Rec(case)
+    rec.c('history_cases_run')
+    if res.get('timeout'):
+        rec.inconc(f'history case watchdog after {prog.get("history")}')
+        return rec.out()
+    if 'crash_signal' in res:
+        hist = prog.get('history') or ['(before the first operation)']
+        flags = prog.get('flags') or {}
+        last = hist[-1].split('=')[0].split(':')[0]
+        entry = {'like': 'calculate_likelihood', 'like_scaled': 'calculate_likelihood', 'deriv': 'calculate_likelihood_and_derivatives',
+                 'deriv_scaled': 'calculate_likelihood_and_derivatives', 'deriv_nohess': 'calculate_likelihood_and_derivatives'}.get(last, last)
+        # estimations evaluate the function alone too (line search of the optimiser)
+        if entry in ('calculate_likelihood', 'estimate', 'quick_estimate', 'bootstrap', 'validate') and flags.get('threads_raised_after_derivatives'):
+            mech = 'C04/history-native-crash-calculate_likelihood-after-derivatives-then-threads-raised-by-setter'
+        else:
+            mech = f'C04/history-native-crash-in-{entry}'
+        rec.ev()
+        rec.key(['history-crash', case])
+        rec.violation(mech, f'process died with signal {res["crash_signal"]} in {hist[-1]} after {hist[:-1]} on one BIOGEME object',
+                      {'history': hist, 'flags': flags, 'case': case})
+        return rec.out()
+    rec.inconc('history case: ' + str(res.get('harness_error'))[:300] + ' | ' + str(res.get('tb'))[-600:])
+    return rec.out()
+
+
 def _history_case(case, rec):
     """One BIOGEME object taken through a sequence of public operations; after every likelihood call the value is
     judged against (a) the weighted sum of what simulate reports on a fresh single-thread object built on the data
@@ -893,6 +958,9 @@ def _history_case(case, rec):
     T0 = r.choice(tpool + [0])
     if 'script' in case and 'set_threads_down' in case['script']:
         T0 = r.choice([8, 16, 0])
+    if 'script' in case and 'set_threads_up' in case['script']:
+        T0 = r.choice([1, 2])
+    flags = {'derivatives_called': False, 'threads_raised_after_derivatives': False, 'resolved_threads': _expected_threads(T0, 'param')}
     params = {'max_iterations': (r.randint(1, 4), 'SimpleBounds'), 'bootstrap_samples': (r.randint(1, 3), None),
               'generate_html': (False, None), 'generate_pickle': (False, None)}
     state = {'spec': spec, 'version': 0}
@@ -994,6 +1062,8 @@ def _history_case(case, rec):
         pt = pick_point()
         x = [float(pt[nm]) for nm in names]
         o = state['bg'].calculate_likelihood_and_derivatives(x, scaled=scaled, hessian=hessian, bhhh=bhhh)
+        flags['derivatives_called'] = True
+        flags['threads_raised_after_derivatives'] = False
         got = {'f': float(o.function), 'g': np.array(o.gradient, dtype=float)}
         which = 'g'
         if hessian:
@@ -1024,8 +1094,13 @@ def _history_case(case, rec):
     def do_threads(alias):
         t = r.choice(tpool + [0])
         if 'script' in case:
-            t = 1
+            t = 8 if history[-1] == 'set_threads_up' else 1
         history[-1] = f'{history[-1]}={t}'
+        rt = _expected_threads(t, 'param')
+        if flags['derivatives_called'] and rt > flags['resolved_threads']:
+            flags['threads_raised_after_derivatives'] = True
+        flags['resolved_threads'] = rt
+        _progress(history, flags)
         if alias:
             state['bg'].numberOfThreads = t
         else:
@@ -1044,6 +1119,8 @@ def _history_case(case, rec):
             rec.c(f'history_{which}_raised_{type(e).__name__}')
             return False
         state['results'] = res_
+        flags['derivatives_called'] = True
+        flags['threads_raised_after_derivatives'] = False
         est = res_.get_beta_values()
         pt = {nm: float(est[nm]) for nm in names if nm in est}
         if len(pt) == len(names) and all(math.isfinite(v) and abs(v) < 50 for v in pt.values()):
@@ -1107,6 +1184,7 @@ def _history_case(case, rec):
         state['version'] += 1
         T = r.choice(tpool + [0])
         state['bg'], _ = _build(sp2, T, 'param', params=params, database=d_)
+        flags.update({'derivatives_called': False, 'threads_raised_after_derivatives': False, 'resolved_threads': _expected_threads(T, 'param')})
         state.pop('results', None)
         return True
 
@@ -1120,6 +1198,7 @@ def _history_case(case, rec):
     rec.sample({'history': ops, 'family': kind, 'units': U, 'threads_at_construction': T0, 'weight': spec['weight_kind']})
     for op in ops:
         history.append(op)
+        _progress(history, flags)
         rec.c('history_op_' + op.split('=')[0])
         try:
             if op == 'like':
@@ -1134,7 +1213,7 @@ def _history_case(case, rec):
                 do_deriv(False, hessian=False, bhhh=r.random() < 0.5)
             elif op == 'simulate':
                 do_simulate()
-            elif op in ('set_threads', 'set_threads_down'):
+            elif op in ('set_threads', 'set_threads_down', 'set_threads_up'):
                 do_threads(False)
             elif op == 'set_threads_alias':
                 do_threads(True)
